@@ -482,4 +482,34 @@ theorem pure_untouched_eq_fresh (l : AnyLayer) (d : Bytes) (h : Untouched l) :
   | na v => simp only [pureAny, AnyLayer.kind, fresh, pureNA]; split <;> simp
   | redirect v => simp only [pureAny, AnyLayer.kind, fresh, pureRedirect]; split <;> simp
 
+/-! ## Chains: a non-ICMPv6 first layer never recurses -/
+
+theorem pktRun_leaf (f : Nat) (k : Kind) (hk : k ≠ .icmp6) (data : Bytes) :
+    ∃ o, pktRun (f + 1) k data = .ok o := by
+  unfold pktRun
+  rw [decodeAny_eq]
+  simp only [Res.bind_ok]
+  have hkind : (pureAny (fresh k) data).layer.kind = k := by
+    rw [pureAny_kind]; cases k <;> rfl
+  have hnext := next_of_not_icmp6 (pureAny (fresh k) data).layer (by rw [hkind]; exact hk)
+  rw [hnext]
+  split
+  · exact ⟨_, rfl⟩
+  · split <;> exact ⟨_, rfl⟩
+
+
+theorem dlpRun_leaf (f : Nat) (k : Kind) (hk : k ≠ .icmp6) (o : Objs) (data : Bytes)
+    (acc : List PLayer) (tr : Bool) : ∃ r, dlpRun (f + 1) k o data acc tr = .ok r := by
+  unfold dlpRun
+  rw [decodeAny_eq]
+  simp only [Res.bind_ok]
+  have hkind : (pureAny (o.get k) data).layer.kind = k := by
+    rw [pureAny_kind]; cases k <;> rfl
+  have hnext := next_of_not_icmp6 (pureAny (o.get k) data).layer (by rw [hkind]; exact hk)
+  rw [hnext]
+  split
+  · exact ⟨_, rfl⟩
+  · split <;> exact ⟨_, rfl⟩
+
+
 end Gp.Icmp
